@@ -16,6 +16,7 @@ import SkNet.Lemmas.EmbeddingNormalize
 import SkNet.Lemmas.EmbeddingGsvd
 import SkNet.Lemmas.EmbeddingRp
 import SkNet.Lemmas.EmbeddingLouvain
+import SkNet.Lemmas.EmbeddingConnected
 
 set_option linter.unusedSectionVars false
 
@@ -45,6 +46,38 @@ theorem regularization_rule (reg : α) (connected : Bool) :
   · intro h; simp [not_lt.mpr (le_of_lt h)]
   · intro h hc; simp [h, hc]
   · intro h hc; simp [h, hc]
+
+/-- **the connectivity test is exact**: `stronglyConnected n a` (relaxation rounds from node 0 in the graph and in the
+    reversed graph, `n` rounds each) answers `true` iff every node reaches every node along non-zero entries. -/
+theorem stronglyConnected_iff (n : Nat) (hn : 0 < n) (a : Mat α) :
+    stronglyConnected n a = true ↔ ∀ u v, u < n → v < n → Reach n (nzEdge a) u v :=
+  ⟨fun h u v hu hv => stronglyConnected_sound n hn a h u v hu hv, stronglyConnected_complete n hn a⟩
+
+/-- **`regularization_rule` on the graph**: `Spectral.fit` / `RandomProjection.fit` regularise iff the parameter is
+    positive, or it is negative and some node does not reach some other node. -/
+theorem regularization_rule_graph (n : Nat) (hn : 0 < n) (a : Mat α) (reg : α) :
+    0 < getRegularization reg (stronglyConnected n a) ↔
+      (0 < reg ∨ (reg < 0 ∧ ∃ u v, u < n ∧ v < n ∧ ¬ Reach n (nzEdge a) u v)) := by
+  rw [(regularization_rule reg (stronglyConnected n a)).1]
+  have hiff := stronglyConnected_iff n hn a
+  constructor
+  · rintro (h | ⟨h, hc⟩)
+    · exact Or.inl h
+    · refine Or.inr ⟨h, ?_⟩
+      by_contra hne
+      have : stronglyConnected n a = true := hiff.mpr fun u v hu hv => by
+        by_contra hr
+        exact hne ⟨u, v, hu, hv, hr⟩
+      rw [this] at hc; cases hc
+  · rintro (h | ⟨h, u, v, hu, hv, hr⟩)
+    · exact Or.inl h
+    · refine Or.inr ⟨h, ?_⟩
+      cases hsc : stronglyConnected n a
+      · rfl
+      · exact absurd (hiff.mp hsc u v hu hv) hr
+
+example : stronglyConnected 3 ([[0, 1, 0], [0, 0, 1], [1, 0, 0]] : Mat ℚ) = true ∧
+    stronglyConnected 3 ([[0, 1, 0], [0, 0, 1], [0, 0, 0]] : Mat ℚ) = false := by decide +kernel
 
 example : getRegularization (-1 : ℚ) false = 1 ∧ getRegularization (-1 : ℚ) true = 0 ∧
     getRegularization (2 : ℚ) false = 2 := by decide
@@ -114,6 +147,21 @@ theorem spectral_adjacency_symmetric (nRow nCol : Nat) (b : Mat α) (fb : Bool) 
       have := h3 i (List.mem_range.mpr hi)
       rw [List.all_eq_true] at this
       exact beq_iff_eq.mp (this j (List.mem_range.mpr hj))
+
+/-- **the trivial pair**: on a node of non-zero (regularised) degree the constant vector is reproduced by the
+    transition matrix, and it is annihilated by the Laplacian — `(1, 1)` resp. `(0, 1)` is the pair that the
+    documentation calls "the first", the one `Spectral` skips. -/
+theorem trivial_pair (n : Nat) (a : Mat α) (reg : α) (i : Nat) :
+    (Spec.degReg n a reg i ≠ 0 → Spec.transApply n a reg (fun _ => 1) i = 1) ∧
+    Spec.lapApply n a reg (fun _ => 1) i = 0 := by
+  constructor
+  · intro hd
+    simp only [Spec.transApply, mul_one]
+    change pinv (Spec.degReg n a reg i) * Spec.degReg n a reg i = 1
+    exact pinv_mul_self hd
+  · simp only [Spec.lapApply, mul_one]
+    change Spec.degReg n a reg i - Spec.degReg n a reg i = 0
+    ring
 
 /-! ### Spectral -/
 
@@ -415,8 +463,9 @@ theorem gsvd_embedding {out : GsvdOut α} (h : gsvdFit F nRow nCol a nnz p solve
     gsvdPost_order F nRow nCol p _ _ _ _ _ _ _, gsvdPost_sv_length F nRow nCol p _ _ _ _ _ _ _⟩
 
 /-- **`gsvd_predict_row`** (fit level).  After a successful fit whose solver output satisfies the contract,
-    `predict` on row `i` of the fitted matrix (given as the one-row matrix `x`) succeeds only with the embedding of
-    that row: `predict(A[i]) = embedding_row_[i]`, with or without regularisation and normalisation.
+    whenever `predict` succeeds on a batch `x` of `nVec` vectors whose row `r` is row `i` of the fitted matrix, row `r` of
+    the answer is the embedding of that row: `predict(A[i]) = embedding_row_[i]`, with or without regularisation and
+    normalisation.
     `pow` has to split the returned singular values (`σ^{1−α} σ^{α} = σ`, `σ^{α} ≠ 0`, i.e. `σ > 0`). -/
 theorem gsvd_predict_row {out : GsvdOut α} (h : gsvdFit F nRow nCol a nnz p solver = .ok out)
     (hsol : IsSingularTriplets (gsOp F nRow nCol a p) (gsSol F nRow nCol a p solver).1
@@ -424,13 +473,14 @@ theorem gsvd_predict_row {out : GsvdOut α} (h : gsvdFit F nRow nCol a nnz p sol
     (hpow : ∀ c, c < (gsSol F nRow nCol a p solver).1.length →
       let s := vget (gsSol F nRow nCol a p solver).1 c
       F.pow s (1 - p.factorSingular) * F.pow s p.factorSingular = s ∧ F.pow s p.factorSingular ≠ 0)
-    (i : Nat) (hi : i < nRow) (x : Mat α) (hx : ∀ j, j < nCol → mget x 0 j = mget a i j) (xnnz : Nat)
+    (i : Nat) (hi : i < nRow) (nVec r : Nat) (hr : r < nVec) (x : Mat α)
+    (hx : ∀ j, j < nCol → mget x r j = mget a i j) (xnnz : Nat)
     {e : Mat α}
-    (hp : gsvdPredict F p nCol out.singularValues out.right out.weightsCol 1 nCol x xnnz = .ok e)
+    (hp : gsvdPredict F p nCol out.singularValues out.right out.weightsCol nVec nCol x xnnz = .ok e)
     (c : Nat) (hc : c < out.singularValues.length) :
-    mget e 0 c = mget out.embeddingRow i c := by
+    mget e r c = mget out.embeddingRow i c := by
   obtain ⟨_, hcol, hout⟩ := gsvdFit_ok F nRow nCol a nnz p solver h
-  have he : e = gsvdPredictCore F p nCol out.singularValues out.right out.weightsCol 1 x := by
+  have he : e = gsvdPredictCore F p nCol out.singularValues out.right out.weightsCol nVec x := by
     unfold gsvdPredict at hp
     split at hp
     · cases hp
@@ -438,7 +488,8 @@ theorem gsvd_predict_row {out : GsvdOut α} (h : gsvdFit F nRow nCol a nnz p sol
   have hlen : out.singularValues.length = (gsSol F nRow nCol a p solver).1.length := by
     rw [hout]; exact gsvdPost_sv_length F nRow nCol p _ _ _ _ _ _ _
   rw [he, hout]
-  exact Embedding.gsvd_predict_row F nRow nCol a p _ _ _ _ (by omega) hsol i hi x hx hpow c (by rw [← hlen]; exact hc)
+  exact Embedding.gsvd_predict_row F nRow nCol a p _ _ _ _ (by omega) hsol i hi nVec r hr x hx hpow c
+    (by rw [← hlen]; exact hc)
 
 /-- **C09 / GSVD, SVD: the returned triplets.**  After a successful fit whose solver output satisfies the contract,
     `(singular_values_[c], singular_vectors_left_[:, c], singular_vectors_right_[:, c])` are singular triplets of
@@ -558,20 +609,21 @@ theorem pca_predict_row {out : PcaOut α} (h : pcaFit F nRow nCol a nnz nc nm so
     (hsol : IsSingularTriplets (pcaOperator nRow nCol a) (pcaSol nRow nCol a nc solver).1
       (pcaSol nRow nCol a nc solver).2.1 (pcaSol nRow nCol a nc solver).2.2)
     (hsv : ∀ c, c < (pcaSol nRow nCol a nc solver).1.length → vget (pcaSol nRow nCol a nc solver).1 c ≠ 0)
-    (i : Nat) (hi : i < nRow) (x : Mat α) (hx : ∀ j, j < nCol → mget x 0 j = mget a i j) (xnnz : Nat)
-    {e : Mat α} (hp : pcaPredict F nm nCol out.singularValues out.right out.mean 1 nCol x xnnz = .ok e)
+    (i : Nat) (hi : i < nRow) (nVec r : Nat) (hr : r < nVec) (x : Mat α)
+    (hx : ∀ j, j < nCol → mget x r j = mget a i j) (xnnz : Nat)
+    {e : Mat α} (hp : pcaPredict F nm nCol out.singularValues out.right out.mean nVec nCol x xnnz = .ok e)
     (c : Nat) (hc : c < out.singularValues.length) :
-    mget e 0 c = mget out.embeddingRow i c ∧
+    mget e r c = mget out.embeddingRow i c ∧
     out.embeddingRow = (if nm then normalize2 F nRow out.singularValues.length out.left else out.left) := by
   obtain ⟨_, _, hout⟩ := pcaFit_ok F nRow nCol a nnz nc nm solver h
-  have he : e = pcaPredictCore F nm nCol out.singularValues out.right out.mean 1 x := by
+  have he : e = pcaPredictCore F nm nCol out.singularValues out.right out.mean nVec x := by
     unfold pcaPredict at hp
     split at hp
     · cases hp
     · exact (Except.ok.inj hp).symm
   constructor
   · rw [he, hout]
-    exact Embedding.pca_predict_row F nRow nCol a _ _ _ nm hsol i hi x hx hsv c (by rw [hout] at hc; exact hc)
+    exact Embedding.pca_predict_row F nRow nCol a _ _ _ nm hsol i hi nVec r hr x hx hsv c (by rw [hout] at hc; exact hc)
   · rw [hout]; rfl
 
 /-- **C09 / PCA: triplets and unit norm.**  The public triplets are the solver's, hence (under the contract) singular
@@ -648,6 +700,54 @@ theorem randomProjection_closed_form (F : Fn α) (n : Nat) (hn : 0 < n) (adjacen
   · simp only [if_true]
     exact normalize2_row_congr F n n k _ _ i i hi hi (fun c hc => hraw i c hi hc) c hc
 
+/-- **C09 / RandomProjection at fit level.**  A successful `fit` returns the closed form on the graph
+    `get_adjacency(input, force_bipartite)` with the effective regularisation, split into row and column blocks on the
+    bipartite route; `regularized` says whether a regularisation was applied. -/
+theorem randomProjection_fit (F : Fn α) (nRow nCol : Nat) (b : Mat α) (nnz : Nat) (fb : Bool) (alpha : α) (K : Nat)
+    (rw : Bool) (regParam : α) (nm : Bool) (g : Nat → Mat α) {out : RpOut α}
+    (h : rpFit F nRow nCol b nnz fb alpha K rw regParam nm g = .ok out) :
+    let ga := getAdjacency nRow nCol b true fb
+    let n := ga.2.1
+    let reg := getRegularization regParam (stronglyConnected n ga.2.2)
+    let k := ((g n).getD 0 []).length
+    let closed := mkMat n k (Spec.rpClosedForm n (Spec.rpMultiplierEntry n ga.2.2 reg rw) alpha (mget (g n)) K)
+    let want := if nm then normalize2 F n k closed else closed
+    out.regularized = decide (0 < reg) ∧ out.bipartite = ga.1 ∧
+    (0 < n → ∀ c, c < k →
+      (ga.1 = false → ∀ i, i < n → mget out.embedding i c = mget want i c) ∧
+      (ga.1 = true → (∀ i, i < nRow → i < n → mget out.embedding i c = mget want i c) ∧
+        ∀ cm, out.embeddingCol = some cm → ∀ i, nRow + i < n → mget cm i c = mget want (nRow + i) c)) := by
+  intro ga n reg k closed want
+  unfold rpFit at h
+  split at h
+  · cases h
+  · dsimp only at h
+    split at h
+    · rename_i hb
+      have hout := Except.ok.inj h
+      rw [← hout]
+      refine ⟨rfl, hb.symm, ?_⟩
+      intro hn c hc
+      have hcf := randomProjection_closed_form F n hn ga.2.2 reg alpha (getRegularization_nonneg _ _) K rw nm (g n)
+      refine ⟨fun hf => ?_, fun _ => ⟨?_, ?_⟩⟩
+      · rw [hb] at hf; cases hf
+      · intro i hi hin
+        rw [mget_take _ nRow i c hi]
+        exact hcf i c hin hc
+      · intro cm hcm i hin
+        have := Option.some.inj hcm
+        rw [← this, mget_drop]
+        exact hcf (nRow + i) c hin hc
+    · rename_i hb
+      have hout := Except.ok.inj h
+      rw [← hout]
+      have hb' : ga.1 = false := by simpa using hb
+      refine ⟨rfl, hb'.symm, ?_⟩
+      intro hn c hc
+      have hcf := randomProjection_closed_form F n hn ga.2.2 reg alpha (getRegularization_nonneg _ _) K rw nm (g n)
+      refine ⟨fun _ i hi => hcf i c hi hc, fun ht => ?_⟩
+      rw [hb'] at ht; cases ht
+
 /-- the regularisation handed to the multiplier by `RandomProjection.fit` / `Spectral.fit` is never negative -/
 theorem effective_regularization_nonneg (reg : α) (c : Bool) : 0 ≤ getRegularization reg c :=
   getRegularization_nonneg reg c
@@ -664,6 +764,17 @@ theorem louvainEmbedding_closed_form (n m : Nat) (a : Mat α) (labels : List Int
     (hc : c < membershipCols labels) :
     mget (louvainProject n m a labels) i c = Spec.louvainEntry m a labels i c :=
   louvainProject_entry n m a labels i c hi hc
+
+/-- **C09 / LouvainEmbedding at fit level**: for any labels returned by Louvain, a successful `fit` yields
+    `embedding_[i][c]` = share of the weight of row `i` carried by the columns whose label in `labels_` is `c`. -/
+theorem louvainEmbedding_fit (nRow nCol : Nat) (a : Mat α) (ln lr lc : List Nat) (which : Isolated)
+    {out : LouvainEmbOut α} (h : louvainEmbFit nRow nCol a ln lr lc which = .ok out)
+    (i c : Nat) (hi : i < nRow) (hc : c < membershipCols out.labels) :
+    mget out.embedding i c = Spec.louvainEntry nCol a out.labels i c :=
+  louvainEmbFit_entry nRow nCol a ln lr lc which h i c hi hc
+
+example : (louvainEmbFit 3 3 ([[0, 1, 1], [1, 0, 0], [1, 0, 0]] : Mat ℚ) [0, 0, 1] [] [] .remove).toOption.map
+    (fun o => (o.labels, o.embedding)) = some ([0, 0, -1], [[1/2], [1], [1]]) := by decide +kernel
 
 example : mget (louvainProject 2 3 ([[1, 1, 2], [0, 0, 0]] : Mat ℚ) [0, 1, 1]) 0 1 = 3/4 := by decide +kernel
 
